@@ -152,6 +152,7 @@ static void load_cfg(const std::string & path)
   auto cfgname = (const char * (*)())dlsym(c.handle, "w_cfg");
   if(!tab || !cfgname) harness_fail("w_entries / w_cfg missing in " + path);
   c.name = cfgname();
+  c.fastmath = c.name.find("fastmath") != std::string::npos;
   for(; tab->name; ++tab) c.tab[tab->name] = tab->fn;
   g_cfgs.push_back(c);
   }
